@@ -1,11 +1,363 @@
-/- Driver for C12 (stub — not built yet) -/
+/-
+Driver for C12: replays an implementation transcript (harness/src/c12.rs) through
+* the model of the builder / module tree / lifecycle loops / object paths
+  (`ModTree.node`, `ModTree.startCalls`, `ModTree.endCalls`, `ObjPath.*`) — kind=diverge, and
+* the abstract declared-tree specification (`PreSpec.declare`, `preorder`, `startSpec`, `endSpec`)
+  — kind=reject,
+i.e. the very definitions the theorems in Props/C12.lean are about.
+-/
+import Desverif.Model.ModTree
+import Desverif.Spec.Preorder
 import Driver.Common
 namespace Driver.C12
-open Driver
+open Driver ModTree
+
+abbrev Bytes := List Nat
+
+def bytesOf (s : String) : Bytes := s.toUTF8.toList.map (·.toNat)
+def untok (s : String) : Bytes := if s = "~" then [] else bytesOf s
+
+def strOf (bs : Bytes) : String :=
+  if bs.isEmpty then "~"
+  else match String.fromUTF8? (ByteArray.mk (bs.map UInt8.ofNat).toArray) with
+    | some s => s
+    | none => "<bad-utf8>"
+
+/-- `str::split('.')` on bytes -/
+def splitDot : Bytes → List Bytes
+  | [] => [[]]
+  | b :: rest =>
+    match splitDot rest with
+    | [] => [[b]]     -- unreachable
+    | seg :: segs => if b = ObjPath.DOT then [] :: seg :: segs else (b :: seg) :: segs
+
+def bytesLt : Bytes → Bytes → Bool
+  | [], [] => false
+  | [], _ :: _ => true
+  | _ :: _, [] => false
+  | a :: as, b :: bs => if a < b then true else if b < a then false else bytesLt as bs
+
+def insertSorted (x : Bytes) : List Bytes → List Bytes
+  | [] => [x]
+  | y :: ys => if x = y then y :: ys else if bytesLt x y then x :: y :: ys else y :: insertSorted x ys
+
+/-- stable insertion by time -/
+def insertByTime (x : Nat × Mod) : List (Nat × Mod) → List (Nat × Mod)
+  | [] => [x]
+  | y :: ys => if x.1 < y.1 then x :: y :: ys else y :: insertByTime x ys
+
+def joinWith (sep : String) (xs : List String) : String := sep.intercalate xs
+
+/-- a path is in the specification's domain iff every segment is a non-empty name -/
+def wfSegs (b : Bytes) : Option (List Bytes) :=
+  if b.isEmpty then some []
+  else
+    let segs := splitDot b
+    if segs.all (fun s => !s.isEmpty) then some segs else none
+
+def render (segs : List Bytes) : Bytes := (segs.intersperse [ObjPath.DOT]).flatten
+
+abbrev SDecl := PreSpec.Decl Bytes
+
+structure St where
+  b : Builder := {}
+  wakes : Array Nat := #[]
+  /-- accepted declarations; `none` once a node outside the specification's domain was accepted -/
+  spec : Option (List SDecl) := some []
+  swakes : List (Bytes × Nat) := []
+  mods : Nat := 0
+  midins : Nat := 0
+  rejects : Nat := 0
+  pathops : Nat := 0
+  msgs : Nat := 0
+  starts : Nat := 0
+  weird : Nat := 0
+
+def showErr : Option BErr → String
+  | none => "ok"
+  | some .dup => "dup"
+  | some .noParent => "noparent"
+  | some .treeNoParent => "noparent"
+  | some (.path _) => "panic"
+  | some .insertOob => "panic"
+
+def showAns : PreSpec.Ans → String
+  | .ok => "ok" | .dup => "dup" | .noParent => "noparent"
+
+def pathTok (p : ObjPath.Path) : String := strOf p.data
+
+/-- model answer for `path <s>` -/
+def pathObs (s : Bytes) : String :=
+  let p := ObjPath.fromStr s
+  let r : Except ObjPath.Err String := do
+    let nm ← ObjPath.name p
+    let ps ← ObjPath.asParentStr p
+    let par ← ObjPath.parent p
+    let (pars, plen, pname) ← match par with
+      | some q => do
+        let qn ← ObjPath.name q
+        pure (strOf q.data, q.len, strOf qn)
+      | none => pure ("none", 0, "~")
+    let acc ← (splitDot s).foldlM (fun acc seg => ObjPath.appended acc seg) ObjPath.root
+    pure s!"len={p.len} name={strOf nm} pstr={strOf ps} par={pars} plen={plen} pname={pname} eqapp={if acc = p then 1 else 0}"
+  match r with
+  | .ok s => s
+  | .error _ => "panic"
+
+def pathSpec (segs : List Bytes) : String :=
+  let init := segs.dropLast
+  let par := if segs.isEmpty then "none" else strOf (render init)
+  s!"len={segs.length} name={strOf (segs.getLast?.getD [])} pstr={strOf (render init)} par={par} plen={init.length} pname={strOf (init.getLast?.getD [])} eqapp=1"
+
+/-- model answer for `app <base> <seg>` -/
+def appObs (base seg : Bytes) : String :=
+  let b := ObjPath.fromStr base
+  let r : Except ObjPath.Err String := do
+    let p ← ObjPath.appended b seg
+    let par ← ObjPath.parent p
+    let nm ← ObjPath.name p
+    let g ← ObjPath.appendedGate b seg
+    let gn ← ObjPath.name g
+    let pars := match par with
+      | some q => strOf q.data
+      | none => "none"
+    let gate := g.isGate && g.data == p.data && g.len == p.len && gn == nm
+    pure s!"str={strOf p.data} len={p.len} name={strOf nm} par={pars} pareq={if par = some b then 1 else 0} gate={if gate then 1 else 0}"
+  match r with
+  | .ok s => s
+  | .error _ => "panic"
+
+def appSpec (segs : List Bytes) (seg : Bytes) : String :=
+  let par := if segs.isEmpty then "~" else strOf (render segs)
+  s!"str={strOf (render (segs ++ [seg]))} len={segs.length + 1} name={strOf seg} par={par} pareq=1 gate=1"
+
+/-- the case's name pool (same rule as the harness) -/
+def namePool (body : List String) : List Bytes := Id.run do
+  let mut pool : List Bytes := [bytesOf "zz"]
+  for line in body do
+    let (lhs, _) := splitArrow line
+    match words lhs with
+    | "node" :: p :: _ =>
+      for seg in splitDot (untok p) do
+        pool := insertSorted seg pool
+    | "block" :: p :: rest =>
+      for seg in splitDot (untok p) do
+        pool := insertSorted seg pool
+      for rel in ((kv rest "rels").getD "").splitOn "," do
+        for seg in splitDot (untok rel) do
+          pool := insertSorted seg pool
+    | _ => pure ()
+  return pool
+
+/-- one declaration (a `sim.node` call or one call made by a `ModuleBlock`): compare the
+    implementation's answer with the specification and the model, advance both -/
+def declStep (st : St) (id : String) (i : Nat) (what : String) (path : Except ObjPath.Err ObjPath.Path)
+    (segs : Option (List Bytes)) (stages wake : Nat) (ans : String) : Except String St := do
+  -- specification
+  let mut specAns : Option String := none
+  let mut spec' := st.spec
+  match st.spec, segs with
+  | some D, some sg =>
+    let (a, D') := PreSpec.declare D ⟨sg, stages⟩
+    specAns := some (showAns a)
+    spec' := some D'
+  | some _, none => if ans == "ok" then spec' := none
+  | none, _ => pure ()
+  -- model
+  let (b', err) := match path with
+    | .ok p => ModTree.raw st.b p stages
+    | .error e => (st.b, some (.path e))
+  let mans := showErr err
+  if let some sa := specAns then
+    if sa != ans then
+      throw s!"fail {id} op={i} kind=reject line=[{what}] spec={sa} model={mans} impl={ans}"
+  if mans != ans then
+    throw s!"fail {id} op={i} kind=diverge line=[{what}] spec={specAns.getD "-"} model={mans} impl={ans}"
+  let mut st := st
+  if err.isNone then
+    let mid := match b'.mods.getLast? with
+      | some m => m.id != st.b.nextId
+      | none => false
+    let key := match path with
+      | .ok p => p.data
+      | .error _ => []
+    st := { st with wakes := st.wakes.push wake, mods := st.mods + 1, midins := st.midins + (if mid then 1 else 0),
+                    swakes := (key, wake) :: st.swakes,
+                    weird := st.weird + (if segs.isNone then 1 else 0) }
+  else
+    st := { st with rejects := st.rejects + 1 }
+  return { st with b := b', spec := spec' }
+
+/-- expected `run` log from a module vector + lookup functions -/
+def expectedLog (mods : List Mod) (wake : Mod → Nat) (lenOf : Mod → Nat) (nameOf : Mod → String)
+    (parentOf : Mod → String) (kidsOf : Mod → String) (calls : List (Mod × Nat)) (ends : List Mod) :
+    List String × Nat := Id.run do
+  let _ := mods
+  let mut out : List String := []
+  let mut sched : List (Nat × Mod) := []
+  for (m, stage) in calls do
+    out := out ++ [s!"S:{pathTok m.path}:{stage}:0"]
+    if wake m > 0 then sched := insertByTime (wake m * (stage + 1), m) sched
+  let mut tend := 0
+  for (t, m) in sched do
+    out := out ++ [s!"M:{pathTok m.path}:{t}"]
+    tend := t
+  for m in ends do
+    out := out ++ [s!"E:{pathTok m.path}:{tend}:{lenOf m}:{nameOf m}:{parentOf m}:{kidsOf m}"]
+  return (out, sched.length)
+
+def firstDiff (a b : List String) : String := Id.run do
+  let mut i := 0
+  let mut xs := a
+  let mut ys := b
+  repeat
+    match xs, ys with
+    | [], [] => return "none"
+    | x :: xs', y :: ys' =>
+      if x != y then return s!"entry={i} expected={x} got={y}"
+      xs := xs'; ys := ys'; i := i + 1
+    | x :: _, [] => return s!"entry={i} expected={x} got=<end>"
+    | [], y :: _ => return s!"entry={i} expected=<end> got={y}"
+  return "none"
+
+def runCase (c : Case) : String := Id.run do
+  let h := words c.header
+  let id := (h[1]?).getD "?"
+  let pool := namePool c.body
+  let mut st : St := {}
+  let mut i := 0
+  let mut ran := false
+  for line in c.body do
+    if line.startsWith "end" then continue
+    i := i + 1
+    let (lhs, rhs) := splitArrow line
+    let ans := rhs.trimAscii.toString
+    match words lhs with
+    | "node" :: p :: rest =>
+      if ran then
+        if ans != "late" then return s!"fail {id} op={i} kind=diverge line=[{lhs}] model=late impl={ans}"
+        continue
+      let stages := (kvNat rest "s").getD 1
+      let wake := (kvNat rest "w").getD 0
+      let pb := untok p
+      match declStep st id i lhs (.ok (ObjPath.fromStr pb)) (wfSegs pb) stages wake ans with
+      | .ok st' => st := st'
+      | .error msg => return msg
+    | "block" :: p :: rest =>
+      if ran then
+        if ans != "late" then return s!"fail {id} op={i} kind=diverge line=[{lhs}] model=late impl={ans}"
+        continue
+      let stages := (kvNat rest "s").getD 1
+      let rels := (((kv rest "rels").getD "").splitOn ",").map untok
+      let pb := untok p
+      let scope := ObjPath.fromStr pb
+      -- `SimBuilderScoped::root`, then `SimBuilderScoped::node(rel)`: the relative path is appended
+      -- to the scope component by component
+      let calls : List (String × Except ObjPath.Err ObjPath.Path × Option (List Bytes)) :=
+        (s!"block {p}: root", .ok scope, wfSegs pb) ::
+        rels.map (fun rel =>
+          let relp := ObjPath.fromStr rel
+          let path := (splitDot relp.data).foldlM (fun acc seg => ObjPath.appended acc seg) scope
+          let segs := match wfSegs pb, wfSegs rel with
+            | some a, some b => some (a ++ b)
+            | _, _ => none
+          (s!"block {p}: node {strOf rel}", path, segs))
+      let answers := ans.splitOn ","
+      if answers.length != calls.length then
+        return s!"fail {id} op={i} kind=diverge line=[{lhs}] model={calls.length}-answers impl={ans}"
+      for ((what, path, segs), a) in calls.zip answers do
+        match declStep st id i what path segs stages 0 a with
+        | .ok st' => st := st'
+        | .error msg => return msg
+    | ["nodes"] =>
+      if ran then
+        if ans != "late" then return s!"fail {id} op={i} kind=diverge line=[{lhs}] model=late impl={ans}"
+        continue
+      let fmt (xs : List String) := if xs.isEmpty then "-" else joinWith "," xs
+      let mans := fmt (st.b.mods.map (fun m => pathTok m.path))
+      if let some D := st.spec then
+        let sans := fmt ((PreSpec.preorder D).map (fun d => strOf (render d.segs)))
+        if sans != ans then
+          return s!"fail {id} op={i} kind=reject line=[{lhs}] spec={sans} model={mans} impl={ans}"
+      if mans != ans then
+        return s!"fail {id} op={i} kind=diverge line=[{lhs}] model={mans} impl={ans}"
+    | ["run"] =>
+      if ran then
+        if ans != "res=none" then return s!"fail {id} op={i} kind=diverge line=[{lhs}] model=res=none impl={ans}"
+        continue
+      ran := true
+      let toks := words ans
+      let res := toks.head?.getD ""
+      let got := toks.drop 1
+      if res != "res=ok" then
+        return s!"fail {id} op={i} kind=reject line=[{lhs}] spec=res=ok impl={res}"
+      -- specification: stage-major over the declared pre-order, lookups from the declared tree
+      if let some D := st.spec then
+        let toMod (d : SDecl) : Mod := ⟨0, ⟨render d.segs, 0, d.segs.length, false⟩, d.stages, none⟩
+        let swakes := st.swakes
+        let wakeOf (m : Mod) : Nat := ((swakes.find? (fun e => e.1 == m.path.data)).map (·.2)).getD 0
+        let segsOf (m : Mod) : List Bytes := (wfSegs m.path.data).getD []
+        let nameOf (m : Mod) : String := strOf ((segsOf m).getLast?.getD [])
+        let parentOf (m : Mod) : String :=
+          match PreSpec.par (segsOf m) with
+          | some q => strOf (render q)
+          | none => "-"
+        let kidsOf (m : Mod) : String :=
+          let ks := pool.filterMap (fun n =>
+            if (PreSpec.kids D (segsOf m)).any (fun d => d.segs == segsOf m ++ [n]) then some s!"{strOf n}>{strOf (render (segsOf m ++ [n]))}" else none)
+          if ks.isEmpty then "-" else joinWith "," ks
+        let calls := (PreSpec.startSpec D).map (fun c => (toMod c.1, c.2))
+        let ends := (PreSpec.endSpec D).map toMod
+        let (exp, _) := expectedLog [] wakeOf (fun m => m.path.len) nameOf parentOf kidsOf calls ends
+        if exp != got then
+          return s!"fail {id} op={i} kind=reject line=[run] clause=callback-log {firstDiff exp got}"
+      -- model
+      let b := st.b
+      let wakes := st.wakes
+      let wakeOf (m : Mod) : Nat := wakes[m.id]?.getD 0
+      let nameOf (m : Mod) : String :=
+        match ObjPath.name m.path with
+        | .ok n => strOf n
+        | .error _ => "!"
+      let parentOf (m : Mod) : String :=
+        match lookupParent b m with
+        | some q => pathTok q.path
+        | none => "-"
+      let kidsOf (m : Mod) : String :=
+        let ks := pool.filterMap (fun n => (lookupChild b m n).map (fun c => s!"{strOf n}>{pathTok c.path}"))
+        if ks.isEmpty then "-" else joinWith "," ks
+      let (exp, nmsg) := expectedLog b.mods wakeOf (fun m => m.path.len) nameOf parentOf kidsOf
+        (startCalls b.mods) (endCalls b.mods)
+      if exp != got then
+        return s!"fail {id} op={i} kind=diverge line=[run] clause=callback-log {firstDiff exp got}"
+      st := { st with msgs := nmsg, starts := (startCalls b.mods).length }
+    | ["path", s] =>
+      st := { st with pathops := st.pathops + 1 }
+      let sb := untok s
+      if let some segs := wfSegs sb then
+        let sa := pathSpec segs
+        if sa != ans then return s!"fail {id} op={i} kind=reject line=[{lhs}] spec=[{sa}] impl=[{ans}]"
+      let ma := pathObs sb
+      if ma != ans then return s!"fail {id} op={i} kind=diverge line=[{lhs}] model=[{ma}] impl=[{ans}]"
+    | ["app", b, s] =>
+      st := { st with pathops := st.pathops + 1 }
+      let bb := untok b
+      let sb := untok s
+      match wfSegs bb, wfSegs sb with
+      | some segs, some [seg] =>
+        let sa := appSpec segs seg
+        if sa != ans then return s!"fail {id} op={i} kind=reject line=[{lhs}] spec=[{sa}] impl=[{ans}]"
+      | _, _ => pure ()
+      let ma := appObs bb sb
+      if ma != ans then return s!"fail {id} op={i} kind=diverge line=[{lhs}] model=[{ma}] impl=[{ans}]"
+    | _ => return s!"fail {id} op={i} kind=badline detail={line}"
+  let maxSt := maxStage st.b.mods
+  let nt := st.midins > 0 && maxSt ≥ 2 && st.mods ≥ 4 && ran && st.spec.isSome
+  return s!"ok {id} nt={if nt then 1 else 0} ops={i} mods={st.mods} midins={st.midins} rejects={st.rejects} starts={st.starts} msgs={st.msgs} pathops={st.pathops} weird={st.weird} indomain={if st.spec.isSome then 1 else 0}"
 
 def main (stdin : IO.FS.Stream) : IO Unit := do
   let cases ← readCases stdin
   for c in cases do
-    IO.println s!"fail {(words c.header)[1]?.getD "?"} op=0 kind=unimplemented"
+    IO.println (runCase c)
 
 end Driver.C12
